@@ -446,3 +446,57 @@ func verif_C09_client() {
 		verifAssert(isSE && se != nil && se.Code == 535 && se.EnhancedCode == EnhancedCode{5, 7, 8} && se.Message == "no", "C09.client-reports-server-reply")
 	}
 }
+
+// verif_C09_failed_starttls_stub: STARTTLS whose handshake fails leaves a
+// plaintext connection; AUTH on it must stay unreachable unless insecure
+// authentication is allowed.
+func verif_C09_failed_starttls_stub() {
+	allow := nondetBool()
+	m := &vsasl{failAt: -1}
+	be := &vbackend{authSession: true, mechs: []string{"XVERIF"}}
+	factoryCalls := 0
+	be.saslFn = func(_ *vsession, mech string) (sasl.Server, error) {
+		factoryCalls++
+		return m, nil
+	}
+	s, _ := verifServer(be)
+	s.AllowInsecureAuth = allow
+	s.TLSConfig = &tls.Config{}
+	reEhlo := nondetBool()
+	in := "EHLO p\r\nSTARTTLS\r\n"
+	if reEhlo {
+		in += "EHLO again\r\n"
+	}
+	in += "AUTH XVERIF " + verifB64Encode(nondetBytesN(1)) + "\r\nNOOP\r\n"
+	vc := &vconn{in: []byte(in), final: io.EOF, tlsFail: true}
+	conn := newConn(vc, s)
+	s.handleConn(conn)
+	reps, wf := verifParseReplies(vc.out)
+	n := 5
+	if reEhlo {
+		n = 6
+	}
+	verifAssert(wf && len(reps) == n+1, "C09.failed-starttls-replies")
+	if !wf || len(reps) != n+1 {
+		return
+	}
+	ar := reps[n-1]
+	advertised := false
+	if reEhlo {
+		for _, l := range reps[4].lines {
+			if len(l) >= 4 && l[:4] == "AUTH" {
+				advertised = true
+			}
+		}
+	}
+	verifObserve("c09f", allow, reEhlo, ar.code, advertised, factoryCalls, len(m.calls))
+	if !allow {
+		verifReach("C09.failed-starttls-insecure")
+		verifAssert(!advertised, "C09.auth-not-advertised-after-failed-handshake")
+		verifAssert(ar.code/100 == 5 && !conn.didAuth, "C09.auth-refused-after-failed-handshake")
+		verifAssert(factoryCalls == 0 && len(m.calls) == 0, "C09.mechanism-gets-nothing-after-failed-handshake")
+	} else {
+		verifReach("C09.failed-starttls-allowed")
+		verifAssert(ar.code == 235, "C09.insecure-auth-allowed-still-works")
+	}
+}
